@@ -346,7 +346,13 @@ func (s *Sim) genTx0() *TxSpec {
 		t.DocURL = fmt.Sprintf("https://doc/%d", r.Intn(4))
 		t.Note = "setdoc"
 		if r.Intn(8) == 0 {
-			t.DocName = strings.Repeat("x", 2049)
+			// one of the two fields over its limit, the other one fine and new
+			if r.Intn(2) == 0 {
+				t.DocName = strings.Repeat("x", 2049)
+			} else {
+				t.DocName = fmt.Sprintf("other-name-%d", r.Intn(4))
+				t.DocURL = "https://doc/" + strings.Repeat("y", 2049)
+			}
 			t.Note = "setdoc-too-long"
 		}
 		return t
